@@ -109,6 +109,7 @@ Theorem C17_backup_exact : forall (runnable : file -> bool) (fails : verb -> lis
   | BakEbpf => match fs_get SysEbpf (wfs w) with Some f => Some f | None => fs_get BakEbpf (wfs w) end
   | BakExe => match fs_get SysExe (wfs w) with Some f => Some f | None => fs_get BakExe (wfs w) end
   | BakUnit => match fs_get SysUnit (wfs w) with Some f => Some f | None => fs_get BakUnit (wfs w) end
+  | BakTmp => match fs_get SysExe (wfs w) with Some _ => None | None => fs_get BakTmp (wfs w) end
   | _ => fs_get l (wfs w)
   end.
 Proof. exact backup_get. Qed.
@@ -253,55 +254,53 @@ Proof. exact reversible_outside_known_class. Qed.
 Print Assumptions C17_reversible_outside_known_class.
 
 (* CRASH POINTS INSIDE BACKUP (the tool dies: SIGKILL, OOM, time-out).  `backup` saves configuration,
-   eBPF object, executable, unit file in that order and `restore` takes the backed-up executable as
-   the sign that a backup exists.  If backup died before it began to save the executable -- after 0,
-   1 or 2 complete copies, whatever sits at the destination of the copy in flight -- then, after any
-   install, restore refuses: it changes nothing but its own log. *)
-Theorem C17_backup_cut_refused : forall (runnable : file -> bool) (fails : verb -> list event -> bool)
+   eBPF object and unit file, then copies the executable to azure-proxy-agent.tmp and renames it onto
+   azure-proxy-agent, the file `restore` takes as the sign that a backup exists (/repo d891b48).
+   For EVERY cut point j (the first j of the five operations complete; j >= 5 = the whole backup),
+   from any installed version without a backup marker, whatever else is there, whatever package is
+   installed afterwards: restore either refuses -- the world is the same but for its own log -- or
+   reinstates the four files exactly (and, systemctl permitting, the service runs, enabled). *)
+Theorem C17_backup_cut_safe : forall (runnable : file -> bool) (fails : verb -> list event -> bool)
     (j : nat) (w : world) (d : bool),
-  (j <= 2)%nat -> fs_get BakExe (wfs w) = None ->
+  installed runnable w = true -> fs_get BakExe (wfs w) = None ->
   let w1 := backup_crash runnable fails j w in
-  exec runnable fails (Restore d) (exec runnable fails Install w1) = log_tool (Restore d) (exec runnable fails Install w1).
-Proof. exact backup_cut_refused. Qed.
-Print Assumptions C17_backup_cut_refused.
-
-Theorem C17_backup_cut_inflight_refused : forall (runnable : file -> bool) (fails : verb -> list event -> bool)
-    (j : nat) (w : world) (d : bool) (l : loc) (f : file),
-  (j <= 2)%nat -> fs_get BakExe (wfs w) = None -> l = BakCfg \/ l = BakEbpf ->
-  let w1 := inflight l f (backup_crash runnable fails j w) in
-  exec runnable fails (Restore d) (exec runnable fails Install w1) = log_tool (Restore d) (exec runnable fails Install w1).
-Proof. exact backup_cut_inflight_refused. Qed.
-Print Assumptions C17_backup_cut_inflight_refused.
-
-(* KNOWN FINDING C17-K2.  "After a cut backup, install and restore, either restore refused or the
-   version is reinstated" is refuted when backup died after saving the executable and before the
-   unit file: restore accepts the torso, stops the service, puts back three files, fails on the unit
-   file (exit 1) and never starts the service ... *)
-Theorem C17_backup_cut_refuted :
-  exists w, installed standin_runnable w = true /\ no_backup w = true /\
-    let w1 := backup_crash standin_runnable never_fails 3 w in
-    KnownClass_C17_backup_cut w w1 = true /\
-    let w3 := exec standin_runnable never_fails (Restore true) (exec standin_runnable never_fails Install w1) in
-    fs_get SysUnit (wfs w3) <> fs_get SysUnit (wfs w) /\ fs_get SysExe (wfs w3) = fs_get SysExe (wfs w) /\
-    wrunning w3 = false /\
-    exit_code standin_runnable never_fails (Restore true) (exec standin_runnable never_fails Install w1) = 1.
-Proof. exact backup_cut_refuted. Qed.
-Print Assumptions C17_backup_cut_refuted.
-
-(* ... and outside that class every crash state between two copies is harmless: restore refuses or
-   reinstates the four files (and, systemctl permitting, the service runs). *)
-Theorem C17_backup_cut_outside_known_class : forall (runnable : file -> bool) (fails : verb -> list event -> bool)
-    (j : nat) (w : world) (d : bool),
-  (j <= 4)%nat -> installed runnable w = true -> no_backup w = true ->
-  let w1 := backup_crash runnable fails j w in
-  KnownClass_C17_backup_cut w w1 = false ->
   let w2 := exec runnable fails Install w1 in
   let w3 := exec runnable fails (Restore d) w2 in
   w3 = log_tool (Restore d) w2 \/
   ((forall l, In l sys_locs -> fs_get l (wfs w3) = fs_get l (wfs w)) /\
    ((forall v l, fails v l = false) -> wrunning w3 = true /\ wenabled w3 = true)).
-Proof. exact backup_cut_outside_class. Qed.
-Print Assumptions C17_backup_cut_outside_known_class.
+Proof. exact backup_cut_safe. Qed.
+Print Assumptions C17_backup_cut_safe.
+
+(* The same when the tool died INSIDE a copy: with an arbitrary file at the destination of the copy
+   in flight (any location but the executable's final name, which is only ever written by rename)
+   after at most four complete operations, restore refuses. *)
+Theorem C17_backup_cut_inflight_refused : forall (runnable : file -> bool) (fails : verb -> list event -> bool)
+    (j : nat) (w : world) (d : bool) (l : loc) (f : file),
+  (j <= 4)%nat -> fs_get BakExe (wfs w) = None -> l <> BakExe ->
+  let w1 := inflight l f (backup_crash runnable fails j w) in
+  exec runnable fails (Restore d) (exec runnable fails Install w1) = log_tool (Restore d) (exec runnable fails Install w1).
+Proof. exact backup_cut_inflight_refused. Qed.
+Print Assumptions C17_backup_cut_inflight_refused.
+
+(* before the first four operations are complete there is no marker *)
+Theorem C17_backup_cut_no_marker : forall (runnable : file -> bool) (fails : verb -> list event -> bool) (j : nat) (w : world),
+  (j <= 4)%nat -> fs_get BakExe (wfs w) = None -> fs_get BakExe (wfs (backup_crash runnable fails j w)) = None.
+Proof. exact backup_crash_no_marker. Qed.
+Print Assumptions C17_backup_cut_no_marker.
+
+(* information (finding C17-K2, fixed by d891b48): with the old order -- executable third, directly
+   under its final name -- a cut after three copies made restore put three files back, fail on the
+   unit file and leave the service stopped *)
+Theorem C17_old_backup_order_unsafe :
+  let w1 := run_ops standin_runnable never_fails (firstn 3 old_backup_ops) ex_installed in
+  let w2 := exec standin_runnable never_fails Install w1 in
+  let w3 := exec standin_runnable never_fails (Restore true) w2 in
+  fs_get SysUnit (wfs w3) <> fs_get SysUnit (wfs ex_installed) /\
+  fs_get SysExe (wfs w3) = fs_get SysExe (wfs ex_installed) /\ wrunning w3 = false /\
+  exit_code standin_runnable never_fails (Restore true) w2 = 1.
+Proof. exact old_backup_order_unsafe. Qed.
+Print Assumptions C17_old_backup_order_unsafe.
 
 (* faults are not vacuous: with `systemctl stop` failing at every call, uninstall package still
    removes the four files and exits 0 (the service is still reported running: nothing stopped it);
